@@ -22,9 +22,9 @@ const altNS = "alt!/"
 
 type bucketCase struct {
 	Start    int    `json:"start"`
-	Copy     string `json:"copy"`     // when/how the second bucket was filled
-	Behind   int    `json:"behind"`   // rounds the first instance ran after the copy
-	PoolA    int    `json:"pool_a"`   // pool sizes of the racing round
+	Copy     string `json:"copy"`   // when/how the second bucket was filled
+	Behind   int    `json:"behind"` // rounds the first instance ran after the copy
+	PoolA    int    `json:"pool_a"` // pool sizes of the racing round
 	PoolB    int    `json:"pool_b"`
 	Schedule []int  `json:"schedule"` // gate schedule of the racing round
 	Seed     int64  `json:"seed"`
